@@ -137,3 +137,4 @@ pub open spec fn creation_flags(bits: i32) -> bool { bits & (libc::O_CREAT | lib
 /// the link body was read (readlinkat(fd, "")) from a descriptor that passed the procfs checks
 pub open spec fn exists_procfs_link(body: Seq<u8>) -> bool { exists|l: int| (#[trigger] link_body_of(l, body)) && is_procfs(l) }
 pub uninterp spec fn requested_flags_of(fd: int) -> i32;   // open flags a reopen / procfs open was asked for
+pub uninterp spec fn cwd_id() -> int;   // the AT_FDCWD pseudo-descriptor
